@@ -572,6 +572,7 @@ func propC05(c *Ctx) {
 	for li := range langVals {
 		for _, n := range entSizes {
 			c.entropyClasses(n, func(class string, e []byte) { dec(class, li, e) })
+			c.extremeWordEntropies(li, n, func(class string, e []byte) { dec(class, li, e) })
 			// single-bit flips
 			e := c.randBytes(n)
 			base := dec("flip-base", li, e)
